@@ -1274,5 +1274,75 @@ theorem buildVec_none (binary : Bool) (props : List (Bytes × SType)) (attr : By
   simp only [buildVec, allSome_none _ k this]
 
 
+/-! ## `buildReader`: all components present; the IgnorableW fallback -/
+
+/-- `PropertyReader.build*` of a 2/3/4-vector reader whose components are all present with one type -/
+theorem buildReader_all (binary : Bool) (props : List (Bytes × SType)) (r : RProp) (hlen : 2 ≤ r.names.length)
+    (hn : r.names.Nodup) (hnd : (props.map (·.1)).Nodup) (t : SType) (idx : List Nat)
+    (hl : idx.length = r.names.length)
+    (hidx : ∀ k (hk : k < r.names.length), ∃ hi : idx[k]'(by omega) < props.length, props[idx[k]'(by omega)] = (r.names[k], t)) :
+    buildReader binary props r = some ⟨r.attr, r.names, idx.map (locOf binary props), some t⟩ := by
+  have hne : r.names ≠ [] := by intro h; rw [h] at hlen; simp at hlen
+  have hb := buildVec_spec binary props r.attr r.names hn hne hnd t idx hl hidx
+  obtain ⟨attr, names, ign⟩ := r
+  match names, hlen with
+  | a :: b :: rest, _ =>
+    simp only [buildReader]
+    simp only at hb
+    rw [hb]
+
+theorem offs_four (l : List (Option Nat)) (hl : l.length = 4) (a b c : Nat)
+    (h0 : l[0]? = some (some a)) (h1 : l[1]? = some (some b)) (h2 : l[2]? = some (some c)) (h3 : l[3]? = some none) :
+    l = [some a, some b, some c, none] := by
+  match l, hl with
+  | [x0, x1, x2, x3], _ => simp_all
+
+/-- THE IGNORABLE-W FALLBACK (reader_vector4.go:99-106, 188-195): `red green blue` present with one type and `alpha`
+absent — the 4-vector reader is not built, the 3-vector reader over the first three names is, located at their header
+positions -/
+theorem buildReader_fallback (binary : Bool) (props : List (Bytes × SType)) (r : RProp) (hlen : r.names.length = 4)
+    (hign : r.ignorableW = true) (hn : r.names.Nodup) (hnd : (props.map (·.1)).Nodup) (t : SType) (idx : List Nat)
+    (hl : idx.length = 3)
+    (hidx : ∀ k (hk : k < 3), ∃ hi : idx[k]'(by omega) < props.length,
+      props[idx[k]'(by omega)] = (r.names[k]'(by omega), t))
+    (habs : ∀ p ∈ props, p.1 ≠ r.names[3]'(by omega)) :
+    buildReader binary props r = some ⟨r.attr, r.names.take 3, idx.map (locOf binary props), some t⟩ := by
+  -- one type among the reader's properties that are present
+  have huni : ∀ p ∈ props, p.1 ∈ r.names → p.2 = t := by
+    intro p hp hm
+    obtain ⟨k, hk, hke⟩ := List.getElem_of_mem hm
+    by_cases hk3 : k = 3
+    · subst hk3; exact absurd hke.symm (habs p hp)
+    · obtain ⟨hi, hpe⟩ := hidx k (by omega)
+      have := eq_of_fst_eq_of_nodup props hnd p _ hp (List.getElem_mem hi) (by rw [hpe]; exact hke.symm)
+      rw [this, hpe]
+  have hnone := buildVec_none binary props r.attr r.names hn hnd t huni 3 (by omega) habs
+  -- the offsets of the 4-scan
+  obtain ⟨_, h2, h3, _, _⟩ := scan_fold binary r.names hn t props ⟨r.names.map (fun _ => none), none, 0⟩ hnd huni (.inl rfl) (by simp)
+  have hoff : ∀ k (hk : k < 3), (props.foldl (scanProp binary r.names) ⟨r.names.map (fun _ => none), none, 0⟩).offs[k]?
+      = some (some (0 + locOf binary props (idx[k]'(by omega)))) := by
+    intro k hk
+    obtain ⟨hi, hpe⟩ := hidx k hk
+    exact (h3 k (by omega)).1 _ hi (by rw [hpe])
+  have hoff3 : (props.foldl (scanProp binary r.names) ⟨r.names.map (fun _ => none), none, 0⟩).offs[3]? = some none := by
+    have := (h3 3 (by omega)).2 habs
+    simpa [List.getElem?_map, List.getElem?_eq_getElem (show 3 < r.names.length by omega)] using this
+  have hform := offs_four _ (by rw [h2, hlen]) _ _ _ (hoff 0 (by omega)) (hoff 1 (by omega)) (hoff 2 (by omega)) hoff3
+  -- the 3-vector reader
+  have hn3 : (r.names.take 3).Nodup := List.Nodup.sublist (List.take_sublist _ _) hn
+  have hb3 := buildVec_spec binary props r.attr (r.names.take 3) hn3
+    (by intro h; have := congrArg List.length h; simp [hlen] at this) hnd t idx (by simp [hl, hlen])
+    (fun k hk => by
+      have hk3 : k < 3 := by simp [hlen] at hk; omega
+      obtain ⟨hi, hpe⟩ := hidx k hk3
+      exact ⟨hi, by rw [hpe]; simp⟩)
+  obtain ⟨attr, names, ign⟩ := r
+  simp only at hlen hign hnone hform hb3 ⊢
+  match names, hlen with
+  | [n0, n1, n2, n3], _ =>
+    simp only [buildReader, hnone, hign, hform]
+    simpa using hb3
+
+
 end PlyCompose
 end PolyVerif
